@@ -8,6 +8,7 @@ import enum
 import json
 
 import attr
+import dateutil.tz
 import six
 import urllib3
 
@@ -417,7 +418,11 @@ class FieldValueComponentDateTime(FieldValueComponentKeyValueBase):
         parser.parse_date_time('value')
 
     def _get_value_as_simple_type(self):
-        return self.value.strftime('%a, %d %b %Y %H:%M:%S GMT')
+        value = self.value
+        if value.tzinfo is not None:
+            value = value.astimezone(dateutil.tz.UTC)
+
+        return value.strftime('%a, %d %b %Y %H:%M:%S GMT')
 
 
 @attr.s
@@ -967,7 +972,11 @@ class FieldValueDateTime(FieldValueSingleComplexBase):
     def compose(self):
         composer = ComposerText()
 
-        composer.compose_date_time(self.value, '%a, %d %b %Y %H:%M:%S GMT')
+        value = self.value
+        if value.tzinfo is not None:
+            value = value.astimezone(dateutil.tz.UTC)
+
+        composer.compose_date_time(value, '%a, %d %b %Y %H:%M:%S GMT')
 
         return composer.composed
 
